@@ -183,11 +183,12 @@ def parse_design(ans, car):
     n = int(tk.next())
     steps = [b2f(tk.next()) for _ in range(n)]
     ylo, yhi = b2f(tk.next()), b2f(tk.next())
+    cover = tk.next() == "1"   # probeCovers closed ylo yhi at this carrier (hypothesis of design_core_*_covered)
     nres = int(tk.next())
     res = [(_num(tk.next(), car), _num(tk.next(), car)) for _ in range(nres)]
     ns = int(tk.next())
     per = [parse_inter_body(tk, car) for _ in range(ns)]
-    return {"steps": steps, "ylo": ylo, "yhi": yhi, "res": res, "per": per}
+    return {"steps": steps, "ylo": ylo, "yhi": yhi, "cover": cover, "res": res, "per": per}
 
 
 # --------------------------------------------------------------------------------------
@@ -727,6 +728,16 @@ def compare_design(coords, spec, swap, impl, mF, mQ):
         return "model: steps differ between carriers"
     x1, y1 = closed_cols(coords, swap)
     S1 = poly_segs(x1, y1)
+    # hypothesis of the theorems design_core_*_covered, evaluated by the driver (exactly, carrier Q) on the very doubles
+    # it hands to designCore: ylo < yhi and ylo <= every vertex ordinate <= yhi.  Required for every contour that is
+    # not flat (a flat contour has a zero-length probe and is outside the property's quantifier); checked here also
+    # independently on the doubles.
+    if float(np.ptp(y1)) != 0.0:
+        if not mQ["cover"] or not mF["cover"]:
+            return (f"model: probe segment [{mF['ylo']!r}, {mF['yhi']!r}] does not cover the vertex ordinates "
+                    f"[{float(np.min(y1))!r}, {float(np.max(y1))!r}] (probeCovers = {mQ['cover']}/{mF['cover']})")
+        if not (mF["ylo"] < mF["yhi"] and mF["ylo"] <= float(np.min(y1)) and float(np.max(y1)) <= mF["yhi"]):
+            return "model: probeCovers flag is set but the doubles do not satisfy ylo < yhi, ylo <= min y, max y <= yhi"
     # implementation abscissae must be a subsequence of the model's abscissae (bit-exact)
     res = impl["res"]
     k = 0
@@ -1271,6 +1282,9 @@ def process_design(ck, cases):
         d = compare_design(coords, spec, swap, impl, mF, mQ)
         if "per" in mQ:
             ck.hyp_checked += len(mQ["per"])
+            if mQ.get("cover"):
+                ck.count("design:probeCovers_hypothesis_true_on_executed_doubles")
+                ck.hyp_checked += 1
         if d is not None and not bad:
             ck.diverge("design_conditions", case, d)
         elif d is not None:
